@@ -106,6 +106,7 @@ type FnEnc struct {
 	loopPre   map[*loopInfo]*State
 	exitState *State
 	specHeapUse []map[string]bool
+	specCtxs  []*specCtx
 }
 
 type retInfo struct {
@@ -427,8 +428,27 @@ func (e *FnEnc) loadLoc(l *Loc) Val {
 			a := e.heapArr(objArrName(l.ObjT, "."+l.Fld+lf.suffix), e.arrSort1(lf.sort))
 			v.L = append(v.L, "(select "+a+" "+l.Ref+")")
 		case "elem":
+			if e.st.epoch == -1 {
+				inner := "(Array " + e.sorter.idxSort() + " " + lf.sort + ")"
+				if row, ok := e.specRowFor(l.Ref, elemArrName(l.ObjT, lf.suffix), inner); ok {
+					if _, known := e.heapSort[elemArrName(l.ObjT, lf.suffix)]; !known {
+						e.heapSort[elemArrName(l.ObjT, lf.suffix)] = e.arrSort2(lf.sort)
+						e.decl(elemArrName(l.ObjT, lf.suffix), e.arrSort2(lf.sort))
+					}
+					if l.Rel != "" {
+						v.L = append(v.L, e.rowRead(row, inner, l.Off, l.Rel))
+					} else {
+						v.L = append(v.L, "(select "+row+" "+l.Idx+")")
+					}
+					continue
+				}
+			}
 			a := e.heapArr(elemArrName(l.ObjT, lf.suffix), e.arrSort2(lf.sort))
-			v.L = append(v.L, "(select (select "+a+" "+l.Ref+") "+l.Idx+")")
+			if l.Rel != "" {
+				v.L = append(v.L, e.elemRead(a, e.arrSort2(lf.sort), l.Ref, l.Off, l.Rel))
+			} else {
+				v.L = append(v.L, "(select (select "+a+" "+l.Ref+") "+l.Idx+")")
+			}
 		case "global":
 			a := e.heapArr("G/"+l.ObjT+"/"+lf.suffix, lf.sort)
 			v.L = append(v.L, a)
@@ -500,9 +520,17 @@ func (e *FnEnc) sliceElem(s Val, i string) Val {
 	elT := s.T.Underlying().(*types.Slice).Elem()
 	abs := e.idxAdd(s.L[1], i)
 	if isAggregateElem(elT) {
-		return e.loadObj(e.eaddr(s.L[0], abs), elT)
+		return e.loadObj(e.eaddrRel(s.L[0], s.L[1], i), elT)
 	}
-	return e.loadLoc(&Loc{Kind: "elem", ObjT: typeName(elT), Ref: s.L[0], Idx: abs, T: elT})
+	return e.loadLoc(&Loc{Kind: "elem", ObjT: typeName(elT), Ref: s.L[0], Idx: abs, Off: s.L[1], Rel: i, T: elT})
+}
+
+// address of element rel of a slice (base, off): relative form kept for trigger-friendly reads
+func (e *FnEnc) elemAddrRel(base, off, rel string, elT types.Type, resT types.Type) Val {
+	if isAggregateElem(elT) {
+		return Val{T: resT, L: []string{e.eaddrRel(base, off, rel)}}
+	}
+	return Val{T: resT, L: []string{""}, Loc: &Loc{Kind: "elem", ObjT: typeName(elT), Ref: base, Idx: e.idxAdd(off, rel), Off: off, Rel: rel, T: elT}}
 }
 
 func (e *FnEnc) idxAdd(a, b string) string {
